@@ -68,24 +68,18 @@ Theorem C13_mergepatch_rfc7396 :
 Proof. exact mergepatch_rfc7396. Qed.
 Print Assumptions C13_mergepatch_rfc7396.
 
-(** ... and a visible target field the patch does not mention is handed over unevaluated, whatever it
+(** ... and a visible target field the patch does not mention visibly is handed over unevaluated, whatever it
     is (also a failing expression), without failing the call *)
 Theorem C13_mergepatch_lazy :
   forall n t pf out k,
     wf_fields (obj_fields t) -> wf_fields pf ->
     mp_impl (S n) t (VObj pf) = Ok (VObj out) ->
-    has_ex (obj_fields t) k false = true -> lookup k pf = None ->
+    has_ex (obj_fields t) k false = true -> vlookup k pf = None ->
     lookup k out = Some (false, value_of k (obj_fields t)).
 Proof. exact mergepatch_lazy. Qed.
 Print Assumptions C13_mergepatch_lazy.
 
-(** full statement `forall t p, mp_impl = mp_def` (the std.jsonnet definition): REFUTED twice *)
-Theorem C13_mergepatch_hidden_refuted :
-  exists t p, bomb_free t = true /\ bomb_free p = true /\
-              mp_impl (fuel_for p) t p <> mp_def (fuel_for p) t p.
-Proof. exact mergepatch_hidden_refuted. Qed.
-Print Assumptions C13_mergepatch_hidden_refuted.
-
+(** full statement `forall t p, mp_impl = mp_def` (the std.jsonnet definition): REFUTED (eager recursion) *)
 Theorem C13_mergepatch_eager_refuted :
   exists t p, mp_def (fuel_for p) t p = Ok (VObj [(lit "a", (false, VBomb 0)); (lit "b", (false, VNum 2))]) /\
               mp_impl (fuel_for p) t p = Err ERun.
@@ -134,11 +128,6 @@ Theorem C13_mapwithkey_lazy_refuted :
   exists f fs, wf_fields fs /\ map_with_key_spec f fs <> map_with_key_impl f fs.
 Proof. exact mapwithkey_lazy_refuted. Qed.
 Print Assumptions C13_mapwithkey_lazy_refuted.
-
-Theorem C13_keysvalues_lazy_refuted :
-  exists fs, wf_fields fs /\ keys_values_spec false fs <> keys_values_impl false fs.
-Proof. exact keysvalues_lazy_refuted. Qed.
-Print Assumptions C13_keysvalues_lazy_refuted.
 
 Theorem C13_removekey_self_refuted :
   exists fs k sd, wf_fields fs /\ remove_key_spec fs k sd <> remove_key_impl fs k sd.
